@@ -237,15 +237,22 @@ class _DepView:
         self.extra = chk.extra
         self.breach_fallback = {}
         self._pref = 'dep-%s/' % dep
+        self._filter = None     # regular expression: only harnesses / obligations whose name matches are built
 
     def __getattr__(self, k):
         return getattr(self._chk, k)
 
     # a dependency written in the direct style (ring.py: chk.explore / chk.add in the calling process)
     def explore(self, name, *a, **k):
+        import re
+        if self._filter and not re.search(self._filter, name):
+            return SkippedPaths()
         return self._chk.explore(self._pref + name, *a, **k)
 
     def add(self, name, *a, **k):
+        import re
+        if self._filter and not re.search(self._filter, name):
+            return None
         return self._chk.add(self._pref + name, *a, **k)
 
 
@@ -282,10 +289,16 @@ def include_ring_dependency(chk, tasks, dep, ringname, parts, why):
     prog = load_prog()
     gl = load_globals(prog)
     for part in parts:
-        def task(sub, part=part):
-            getattr(R, part)(_DepView(sub, dep), prog, R.Ring(ringname), gl)
-        tasks.append(('dep-%s/%s' % (dep, part), task))
-    chk.extra.setdefault('dependencies_rechecked', []).append({'property': dep, 'task_groups': ' '.join(parts), 'tasks': len(parts), 'why': why})
+        flt = None
+        if isinstance(part, tuple):     # (family, regular expression selecting harnesses of the family by name)
+            part, flt = part
+
+        def task(sub, part=part, flt=flt):
+            view = _DepView(sub, dep)
+            view._filter = flt
+            getattr(R, part)(view, prog, R.Ring(ringname), gl)
+        tasks.append(('dep-%s/%s%s' % (dep, part, '[%s]' % flt if flt else ''), task))
+    chk.extra.setdefault('dependencies_rechecked', []).append({'property': dep, 'task_groups': ' '.join(p if isinstance(p, str) else '%s[%s]' % p for p in parts), 'tasks': len(parts), 'why': why})
 
 
 # --------------------------------------------------------------------- check driver
@@ -650,3 +663,83 @@ def dispatch_lengths(prog, roots, lo=2, hi=1100, depth=3, base=()):
     for c in consts:
         out.update(x for x in (c - 1, c, c + 1) if x >= 0)
     return sorted(out), sorted(consts)
+
+
+# --------------------------------------------------------------------- Point objects built from the current tree's struct type
+POINT_T = MOD + '.Point'
+_POINT_KNOWN = ('x', 'y', 'z', 'isValid')
+
+
+def point_fields(prog):
+    """[(field name, type id)] of secp256k1.Point in the current tree"""
+    t = prog.under(prog.tid_by_str[POINT_T])
+    return [(f['name'], f['t']) for f in t['fields']]
+
+
+def point_field_index(prog, fname):
+    for i, (n, _) in enumerate(point_fields(prog)):
+        if n == fname:
+            return i
+    raise X.Unsupported('secp256k1.Point has no field %s in the current tree' % fname)
+
+
+def arbitrary_value(m, tid, name):
+    """an arbitrary (symbolic) value of a Go type: integers and bools become fresh variables, aggregates are filled recursively"""
+    P = m.prog
+    t = P.under(tid)
+    k = t['k']
+    if k == 'basic':
+        if t.get('bool'):
+            return tm.boolvar(name)
+        if t.get('int'):
+            return tm.var(name, t['bits'])
+        return m.zero(tid)
+    if k == 'array':
+        return [arbitrary_value(m, t['elem'], '%s_%d' % (name, i)) for i in range(t['len'])]
+    if k == 'struct':
+        return [arbitrary_value(m, f['t'], '%s_%s' % (name, f['name'])) for f in t['fields']]
+    return m.zero(tid)
+
+
+def point_tree(m, name, x, y, z, valid, extra='zero'):
+    """object tree of a secp256k1.Point laid out by the struct type of the CURRENT tree: x, y, z, isValid are placed by field name; every other
+    field (bookkeeping a changed tree may have added) is the Go zero value for an operand the harness constructs (extra='zero') or an
+    arbitrary symbolic value for a receiver's prior content (extra='any': whatever an earlier use of the object left there)."""
+    given = {'x': x, 'y': y, 'z': z, 'isValid': valid}
+    tree = []
+    for fn, tid in point_fields(m.prog):
+        if fn in given:
+            tree.append(given[fn])
+        elif extra == 'any':
+            tree.append(arbitrary_value(m, tid, '%s_%s' % (name, fn)))
+        else:
+            tree.append(m.zero(tid))
+    missing = [k for k in _POINT_KNOWN if k not in [f for f, _ in point_fields(m.prog)]]
+    if missing:
+        raise X.Unsupported('secp256k1.Point lacks field(s) %s in the current tree' % missing)
+    return tree
+
+
+def point_get(prog, obj, fname):
+    return obj.tree[point_field_index(prog, fname)]
+
+
+def point_extra_fields(prog):
+    return [(i, n, t) for i, (n, t) in enumerate(point_fields(prog)) if n not in _POINT_KNOWN and prog.types[t].get('size', 1) != 0 and n != '_']
+
+
+def cur_prog():
+    """the SSA program of the current tree loaded by this process (the Point layout is the same under every build-tag set)"""
+    return next(iter(_prog_cache.values()))
+
+
+def point_extra_state(prog, obj):
+    """[(field name, value, width)] of the scalar (bool / integer) fields of a Point object other than x, y, z, isValid"""
+    out = []
+    for i, n, t in point_extra_fields(prog):
+        ut = prog.under(t)
+        if ut['k'] == 'basic' and ut.get('bool'):
+            out.append((n, obj.tree[i], 0))
+        elif ut['k'] == 'basic' and ut.get('int'):
+            out.append((n, obj.tree[i], ut['bits']))
+    return out
